@@ -3,6 +3,7 @@
 # and runs the quick checks of the properties anchored in the touched files: every one of them must stay quiet.
 LAB=/tmp/seedlab
 OUT=/verif/seeded/harmless/RESULTS.txt
+mkdir -p $LAB
 rsync -a --delete --exclude .work/cache --exclude .work/cases /verif/ $LAB/verif/
 [ -d $LAB/repo ] || git -C /repo worktree add -q --detach $LAB/repo HEAD
 sed -i "s#=> /repo#=> $LAB/repo#" $LAB/verif/harness/go.mod
